@@ -10,6 +10,7 @@ drv_bsdiff executes the programs on the real builders and patchers; T_Bsdiff jud
 Bsdiff!Apply on the recorded old file and the patch's decompressed blocks (binding E).
 """
 import glob, hashlib, json, os
+from concurrent.futures import ThreadPoolExecutor
 from . import lib
 
 MODULE_MC = "MC_Bsdiff"
@@ -39,6 +40,8 @@ def known(ctx):
                 ctx.known.setdefault("findings", []).append(f)
         else:
             ids.discard(f["id"])
+    # development aid (trying a fix in a scratch worktree, VERIF_REPO=...): judge as if these findings were fixed
+    ids -= set(os.environ.get("VERIF_C16_ASSUME_FIXED", "").split(","))
     return sorted(ids)
 
 
@@ -109,10 +112,19 @@ def mc_cfg(ctx, name, **over):
     return cfg
 
 
-def judge_trace(ctx, trace, source, kd, totals, max_events=30000):
+def write_tcfg(ctx, kd):
     cfg = ctx.path("t_bsdiff.cfg")
     lib.write_cfg(cfg, {"KnownDeviations": lib.tla_set(kd)}, "TInit", "TNext", invariants=["Done"], view="TView")
-    v = lib.judge(ctx, MODULE_T, cfg, trace, max_events=max_events, heap="4g")
+    return cfg
+
+
+def judge_trace(ctx, trace, source, kd, totals):
+    cfg = write_tcfg(ctx, kd)
+    with open(trace) as f:
+        n = sum(1 for _ in f)
+    # about two chunks per worker (a JVM start costs ~2 s; records of long files cost far more than short ones)
+    max_events = max(300, n // (2 * lib.NCPU) + 1)
+    v = lib.judge(ctx, MODULE_T, cfg, trace, max_events=max_events, heap="3g")
     for k in STAT_KEYS:
         totals[k] = totals.get(k, 0) + v.get(k, 0)
     ctx.stage("judge", source=source, events=v["events"], violations=len(v["violations"]),
@@ -124,7 +136,7 @@ def judge_trace(ctx, trace, source, kd, totals, max_events=30000):
     return v
 
 
-def execute(ctx, name, progs, n, kd, totals, seen, max_events=30000, frac=0.5):
+def execute(ctx, name, progs, n, kd, totals, seen, frac=0.5):
     trace = ctx.path(f"trace_{name}.ndjson")
     d = lib.run_sharded(ctx, DRV, progs, trace, extra_args=["--alphabets", ALPHABETS], shards=min(12, lib.NCPU))
     ctx.stage("run", source=name, programs=d.get("programs"), events=d.get("events"), hangs=d.get("hangs"), wall_s=d["wall_s"])
@@ -132,7 +144,7 @@ def execute(ctx, name, progs, n, kd, totals, seen, max_events=30000, frac=0.5):
         raise lib.ToolError(f"driver executed {d.get('programs')} of {n} programs")
     runs, dn = count_runs(trace, seen)
     sample(ctx, trace, name, frac)
-    judge_trace(ctx, trace, name, kd, totals, max_events=max_events)
+    judge_trace(ctx, trace, name, kd, totals)
     return trace, runs, dn
 
 
@@ -185,6 +197,32 @@ def listed_programs(ctx, seed, nmed, nlong, grid):
     return out
 
 
+def fixtures(ctx, kd):
+    """Validation of the format definition itself: real CDN triplets (old, new, patch made by Blizzard's encoder) from
+    the repository's test fixtures.  Bsdiff!Apply(old, real patch) must be the real new file.  These patches were not
+    generated by this library, so a failure here is not a C16 verdict: it means the TLA+ definition (or a patcher) does
+    not read real patches, and the check stops as inconclusive."""
+    d = os.path.join(lib.REPO, "crates", "cascette-formats", "test_fixtures", "zbsdiff")
+    names = sorted(os.path.basename(p)[:-8] for p in glob.glob(os.path.join(d, "*.zbsdiff"))
+                   if os.path.exists(p[:-8] + ".old") and os.path.exists(p[:-8] + ".new"))
+    if not names:
+        ctx.cov["cdn_fixture_triplets"] = "none found"
+        return
+    progs = ctx.path("prog_fixtures.ndjson")
+    with open(progs, "w") as f:
+        for n in names:
+            f.write(json.dumps({"kind": "fixture", "dir": d, "name": n}) + "\n")
+    trace = ctx.path("trace_fixtures.ndjson")
+    lib.run_driver(DRV, ["--programs", progs, "--out", trace])
+    v = lib.judge(ctx, MODULE_T, write_tcfg(ctx, kd), trace, max_events=3, heap="3g")
+    ctx.stage("spec_validation", source="CDN fixtures", triplets=len(names), events=v["events"], violations=len(v["violations"]),
+              with_seek=v.get("with_seek", 0), wall_s=v["wall_s"])
+    ctx.cov["cdn_fixture_triplets"] = {"triplets": len(names), "apply_equals_new_and_patchers_agree": len(names) - len(v["violations"]),
+                                       "records_with_effective_seek": v.get("with_seek", 0)}
+    if v["violations"] or v.get("undecided") or v.get("patches") != len(names):
+        raise lib.ToolError(f"format definition not validated by the real CDN patches: {v}")
+
+
 def replay(ctx, kd):
     obj = json.load(open(ctx.replay))
     prog = obj.get("program") or obj.get("witness", {}).get("program")
@@ -212,14 +250,14 @@ def selftest(ctx, traces, kd):
         while cut < len(ls) and not lib.is_new(ls[cut]):
             cut += 1
         lines += ls[:cut]
-    cfg = ctx.path("t_bsdiff.cfg")
+    cfg = write_tcfg(ctx, kd)
 
     def write(name, ls):
         p = ctx.path(name)
         open(p, "w").write("\n".join(ls) + "\n")
         return p
 
-    base = lib.tlc_trace(ctx, MODULE_T, cfg, write("selftest_0.ndjson", lines), heap="4g")
+    base = lib.tlc_trace(ctx, MODULE_T, cfg, write("selftest_0.ndjson", lines), heap="3g")
     bad = set(base["violations"]) | {d[0] for d in base["deviations"]}
     tier_of = {}
     cur = None
@@ -237,38 +275,48 @@ def selftest(ctx, traces, kd):
                 return i, e
         raise lib.ToolError("self-test: no suitable event in the trace")
 
+    jobs = {}
+
     def judge_with(name, i, e):
         ls = list(lines)
         ls[i] = json.dumps(e, separators=(",", ":"))
-        v = lib.tlc_trace(ctx, MODULE_T, cfg, write(name, ls), heap="4g")
-        return (i + 1) in v["violations"] and (i + 1) not in bad
+        path = write(name, ls)
+        return lambda: (lambda v: (i + 1) in v["violations"] and (i + 1) not in bad)(lib.tlc_trace(ctx, MODULE_T, cfg, path, heap="3g"))
 
     res = {}
     # (a1) one byte of one applier's output
     i, e = find(lambda e, t: t == "short" and e["outs"][0]["ok"] and len(e["outs"][0]["b"]) >= 3)
     e["outs"][0]["b"][1] ^= 1
-    res["corrupt_output_byte_flagged"] = judge_with("selftest_a1.ndjson", i, e)
+    jobs["corrupt_output_byte_flagged"] = judge_with("selftest_a1.ndjson", i, e)
     # (a2) one byte of the recorded diff block: only the independent patcher (ii) can notice
     i, e = find(lambda e, t: t == "short" and len(e["diff"]) >= 2)
     e["diff"][len(e["diff"]) // 2] ^= 0x40
-    res["corrupt_diff_block_flagged"] = judge_with("selftest_a2.ndjson", i, e)
+    jobs["corrupt_diff_block_flagged"] = judge_with("selftest_a2.ndjson", i, e)
     # (a3) the size stated in the header
     i, e = find(lambda e, t: t == "short" and e["hdr"][24] < 255)
     e["hdr"][24] += 1
-    res["corrupt_header_size_flagged"] = judge_with("selftest_a3.ndjson", i, e)
+    jobs["corrupt_header_size_flagged"] = judge_with("selftest_a3.ndjson", i, e)
     # (a4) long tier: a digest of an output, and a control entry's diff size
     i, e = find(lambda e, t: t == "long" and e["outs"][0]["ok"])
     e["outs"][0]["md5"] = "0" * 32
-    res["corrupt_long_digest_flagged"] = judge_with("selftest_a4.ndjson", i, e)
+    jobs["corrupt_long_digest_flagged"] = judge_with("selftest_a4.ndjson", i, e)
     i, e = find(lambda e, t: t == "long" and len(e["ctrl3"]) >= 2)
     e["ctrl3"][0][0] += 1
-    res["corrupt_long_control_flagged"] = judge_with("selftest_a5.ndjson", i, e)
+    jobs["corrupt_long_control_flagged"] = judge_with("selftest_a5.ndjson", i, e)
     # (b) drop one patch event inside a run
     idx = next(i for i, l in enumerate(lines) if i > 10 and '"op":"patch"' in l)
     ld = list(lines)
     del ld[idx]
-    vd = lib.tlc_trace(ctx, MODULE_T, cfg, write("selftest_b.ndjson", ld), heap="4g")
-    res["drop_one_event_flagged"] = any(idx + 1 <= x <= idx + 12 for x in vd["violations"]) and len(vd["violations"]) > len(base["violations"])
+    pd = write("selftest_b.ndjson", ld)
+
+    def dropped():
+        vd = lib.tlc_trace(ctx, MODULE_T, cfg, pd, heap="3g")
+        return any(idx + 1 <= x <= idx + 12 for x in vd["violations"]) and len(vd["violations"]) > len(base["violations"])
+
+    jobs["drop_one_event_flagged"] = dropped
+    with ThreadPoolExecutor(max_workers=min(lib.NCPU, len(jobs))) as ex:
+        futs = {k: ex.submit(f) for k, f in jobs.items()}
+        res = {k: f.result() for k, f in futs.items()}
     ctx.cov["binding_selftest"] = res
     if not all(res.values()):
         raise lib.ToolError(f"binding self-test failed: {res}")
@@ -295,14 +343,15 @@ def run(ctx):
         runs += n
         distinct += dn
     model_witness(ctx)
+    fixtures(ctx, kd)
     listed = listed_programs(ctx, ctx.seed, nmed, nlong, grid)
     traces = {}
-    for name, max_events in (("struct", 1500), ("med", 1500), ("long", 4000)):
+    for name in ("struct", "med", "long"):
         path, n = listed[name]
-        traces[name], r, dn = execute(ctx, f"{name} seed={ctx.seed}", path, n, kd, totals, seen, max_events=max_events, frac=0.37)
+        traces[name], r, dn = execute(ctx, f"{name} seed={ctx.seed}", path, n, kd, totals, seen, frac=0.37)
         runs += r
         distinct += dn
-    selftest(ctx, [(traces["med"], 400), (traces["long"], 400)], kd)
+    selftest(ctx, [(traces["med"], 250), (traces["long"], 120)], kd)
     # anti-vacuity: the interesting classes were really exercised on the real code
     for k in ("patches", "with_diff", "with_seek", "long_records", "arb_ok", "arb_fail", "by_simple", "by_chunked", "by_optimized"):
         if not totals.get(k):
